@@ -193,6 +193,8 @@ use proto_vulcan::lterm::LTerm;
 use proto_vulcan::operator::{anyo, cond, conda, condu, dfs, onceo};
 use proto_vulcan::relation::{append, cons, distinct, empty, first, member, member1, permute, rember, rest};
 use proto_vulcan::relation::diseq;
+use proto_vulcan::relation::always::always;
+use proto_vulcan::relation::never::never;
 use proto_vulcan::relation::{diseqfd, distinctfd, infd, infdrange, ltefd, ltfd, minusfd, plusfd, timesfd};
 use proto_vulcan::relation::clpz::plusz::plusz;
 use proto_vulcan::relation::clpz::timesz::timesz;
@@ -373,6 +375,7 @@ class Ref(object):
         self.truncated = False
         self.infinite = False
         self.has_fd = False
+        self.has_z = False
         self.track_ext = False
 
     def fresh(self, name='v'):
@@ -540,6 +543,9 @@ class Ref(object):
                 items = [target]
             self.has_fd = True
             return [RState(st.s, st.d, (st.fd[0] + tuple((it, dom) for it in items), st.fd[1]), st.ext)]
+        if k == 'rel' and g[1] in ('plusz', 'timesz'):
+            self.has_z = True
+            return [RState(st.s, st.d, (st.fd[0], st.fd[1] + ((g[1], tuple(self.term(a, env) for a in g[2])),)), st.ext)]
         if k == 'rel' and g[1] in FD_RELS:
             self.has_fd = True
             return [RState(st.s, st.d, (st.fd[0], st.fd[1] + ((g[1], tuple(self.term(a, env) for a in g[2])),)), st.ext)]
@@ -657,6 +663,12 @@ class Ref(object):
             return self.eq_goal(l, ('cons', self.fresh('h'), r), st)
         if name == 'empty':
             return self.eq_goal(args[0], ('nil',), st)
+        if name == 'never':
+            self.infinite = True
+            return []
+        if name == 'always':
+            self.infinite = True
+            return [st]
         if name == 'probe':
             # [hook balance (must be 0), number of process_extension calls, size of the last extension]
             rec = ('cons', ('num', 0), ('cons', ('num', st.ext[0]), ('cons', ('num', st.ext[1]), ('nil',))))
@@ -758,7 +770,7 @@ class Ref(object):
             s2 = dict(st.s)
             for v, n in zip(order, combo):
                 s2[v] = ('num', n)
-            if not all(self.fd_holds(kind, [self.walk_star(a, s2) for a in args]) for kind, args in cons):
+            if not all(self.fd_holds(kind, [self.walk_star(a, s2) for a in args]) for kind, args in cons if kind not in ('plusz', 'timesz')):
                 continue
             st2 = self.recheck(RState(s2, st.d, st.fd, st.ext))
             if st2 is None:
@@ -822,12 +834,57 @@ class Ref(object):
             return True
         raise ValueError('reference: fd constraint ' + kind)
 
+    def solve_z(self, st):
+        """Integer constraints u+v=w / u*v=w: determine an operand as soon as the other two are numbers
+        (unique solution), fail when impossible, leave it open otherwise.  Returns a state or None."""
+        zs = [(k_, a_) for k_, a_ in st.fd[1] if k_ in ('plusz', 'timesz')]
+        s = st.s
+        changed = True
+        while changed:
+            changed = False
+            for kind, args in zs:
+                vals = [self.walk(a, s) for a in args]
+                nums = [v[1] if v[0] == 'num' else None for v in vals]
+                if any(v[0] not in ('num', 'var') for v in vals):
+                    return None
+                known = [n is not None for n in nums]
+                if all(known):
+                    u, v, w = [H.bv(n) if z3.is_expr(n) else n for n in nums]
+                    r = (u + v) if kind == 'plusz' else (u * v)
+                    if not self.num_eq(r, w):
+                        return None
+                    continue
+                if known.count(True) != 2:
+                    continue
+                i = known.index(False)
+                a, b = [H.bv(n) for n in nums if n is not None]
+                if kind == 'plusz':
+                    sol = {0: b - a, 1: b - a, 2: a + b}[i]
+                elif i == 2:
+                    sol = a * b
+                else:
+                    f, pr = a, b
+                    if self.ctx.branch(f == 0, 'reference: zero factor'):
+                        if not self.ctx.branch(pr == 0, 'reference: zero product'):
+                            return None
+                        continue          # every integer works: stays open
+                    if not self.ctx.branch(z3.SRem(pr, f) == 0, 'reference: divisible'):
+                        return None
+                    sol = pr / f
+                s = dict(s)
+                s[vals[i][1]] = ('num', z3.simplify(sol))
+                changed = True
+        st2 = self.recheck(RState(s, st.d, st.fd, st.ext))
+        return st2
+
     def answers(self, prog, rust_vars=()):
         q = self.fresh('q')
         env = {'q': q}
         for v in rust_vars:
             env[v] = self.fresh(v)
         sts = self.run_conj(prog, RState(), env, 0)
+        if self.has_z:
+            sts = [s2 for s2 in (self.solve_z(st) for st in sts) if s2 is not None]
         if self.has_fd:
             sts = [s2 for st in sts for s2 in self.label(st, q)]
         out = []
@@ -1001,6 +1058,16 @@ def compare(ctx, eng, ref, mode):
         for i, (e, f) in enumerate(zip(eng, ref)):
             if not same_answer(ctx, e, f):
                 return 'answer %d differs' % i
+        return None
+    if mode == 'covers':
+        # every reference answer must occur among the engine's answers (a prefix of a possibly infinite stream),
+        # and every engine answer must be a reference answer
+        for j, f in enumerate(ref):
+            if not any(same_answer(ctx, e, f) for e in eng):
+                return 'reference answer %d does not show up among the first %d answers' % (j, len(eng))
+        for i, e in enumerate(eng):
+            if not any(same_answer(ctx, e, f) for f in ref):
+                return 'engine answer %d is not a reference answer' % i
         return None
     used = [False] * len(ref)
     for i, e in enumerate(eng):
